@@ -576,6 +576,12 @@ def r17_an_accepted_subscription_is_registered_or_cancelled(ctx):
             for sb, arms, other in flow.switch_on(b, d.dest["l"]):
                 ok_t = arms.get("0")
             if ok_t is None:
+                # `serde_json::from_str::<SubscriptionId>(..)?` - the outcome is inspected by the `?`
+                for br in b.calls_to(r"Try>?::branch$"):
+                    if any(arg_is_local(b, br.args[0], h) for h in follow_value(b, d.dest["l"])):
+                        for sb, arms, other in flow.switch_on(b, br.dest["l"]):
+                            ok_t = arms.get("0")
+            if ok_t is None:
                 R.anchor_lost("C05.R17", "the match on the decoded subscription id in %s" % b.path)
                 continue
             through = {c.bb for c in ins}
